@@ -40,14 +40,16 @@ def _case(draw, focus):
         if i == 0 and focus == "distribute":
             kind = "trough"
         labs.append(draw(lab_spec(names[i], kind=kind, max_rows=4, max_cols=4, regime="roomy", grid=True, allow_names=False, pos=(10 + i, 1 + i), filled=True if i == 0 else None)))
+    M = draw(st.sampled_from([5, 12.5, 50, 950, 33.3, 1.88, 900.3, 0.7]))
     zeroish = st.one_of(st.just(0), st.just(0), vs_ok(0.01))
-    vs = st.one_of(vs_ok(0.01), st.just(0), st.integers(1, 40).map(float))
+    # exact multiples of a non-dyadic max_volume: the float quotient may land a hair above the integer
+    vs = st.one_of(vs_ok(0.01), st.just(0), st.integers(1, 40).map(float), st.integers(1, 4).map(lambda k: round(k * M, 2)))
     t = st.one_of(op_transfer(vs, max_n=6), op_transfer(vs, max_n=6), op_transfer(vs, max_n=3), op_transfer(zeroish, max_n=3), op_transfer(st.just(0), max_n=3))
     d = op_distribute(st.one_of(vs, st.just(0)), max_n=4)
     direct = op_direct(vs, max_n=4)
     anyop = st.one_of(t, d, direct, direct)
     fop = {"transfer": t, "distribute": d, "direct": direct, "mixed": anyop}[focus]
-    return {"labs": labs, "device": draw(st.sampled_from(["evo", "fluent"])), "M": draw(st.sampled_from([5, 12.5, 50, 950])), "auto_split": draw(st.sampled_from([True, True, False])), "ops": draw(st.lists(st.one_of(fop, anyop), min_size=1, max_size=14))}
+    return {"labs": labs, "device": draw(st.sampled_from(["evo", "fluent"])), "M": M, "auto_split": draw(st.sampled_from([True, True, False])), "ops": draw(st.lists(st.one_of(fop, anyop), min_size=1, max_size=14))}
 
 
 def strategy(tier, stratum):
